@@ -133,6 +133,7 @@ macro_rules! step_h {
             let (mut g, rs) = build_step($n);
             let op = OpcodeKind::$op;
             let i = ref_index(op);
+            kani::assume(safe_mode(&g)); // the simulation relation is a safe-mode property (C17)
             kani::assume(g.can_emit(op));
             let out_len = g.output.len();
             // argument bytes: well formed for the opcode (what EMIT shows the emitters pass)
